@@ -186,6 +186,16 @@ class VarsNoArgs:
         self.q = [3]
 
 
+@dataclasses.dataclass
+class WithItemsMethod:
+    """a structured object that has a method called items(): it is not a mapping, its items are its fields"""
+    owner: str
+    stock: dict
+
+    def items(self):
+        return self.stock.items()
+
+
 class UnresolvedHints:
     """an annotation names something that does not exist at runtime (an import under TYPE_CHECKING): the hints cannot be resolved,
     the constructor's parameters are NOT the fields -- the fields are what the instance holds"""
@@ -466,6 +476,7 @@ FACTORIES = {
     "VarsOnly": (lambda: VarsOnly((1, 2), [3]), ["a", "c"]),
     "VarsNoArgs": (VarsNoArgs, ["p", "q"]),
     "UnresolvedHints": (lambda: UnresolvedHints("bob:hello"), ["sender", "subject"]),
+    "WithItemsMethod": (lambda: WithItemsMethod("bob", {"nut": 3}), ["owner", "stock"]),
     "UnresolvedHintsSlots": (lambda: UnresolvedHintsSlots("ab:(1, 2)"), ["sender", "subject"]),
     "Empty": (Empty, []),
     "AnnClassVar": (lambda: AnnClassVar((1, 2), "ab"), ["a", "b"]),
